@@ -199,8 +199,16 @@ class Check:
 def proof_stage(chk, modules, extra_targets=()):
     """Build + audit the property's theorems.  Returns (ok, info).  On failure the caller runs its
     failing-input search; if that finds nothing it reports no-failing-input-found."""
+    info = {}
+    try:
+        import translate
+        info["regenerated"] = translate.generate()
+    except Exception as exc:  # TranslationError or a source that no longer parses
+        info["problems"] = [f"translator could not regenerate Gen/*.lean from /repo: {type(exc).__name__}: {exc}"]
+        chk.coverage.update({"obligations": 0, "discharged": 0})
+        return False, info
     ok, log = lean_build(list(modules) + list(extra_targets))
-    info = {"build_ok": ok}
+    info["build_ok"] = ok
     if not ok:
         info["problems"] = ["lake build failed: " + "\n".join(l for l in log.splitlines() if "error" in l)[:1500]]
         chk.coverage.update({"obligations": 0, "discharged": 0})
